@@ -23,6 +23,9 @@ CLAIMS = {
  "C07": dict(cat="exploration", tech="rapid history generation with pre-existing objects in nine ownership variants and objects injected mid-operation; independent ownership predicate as oracle",
    text="Generated placements of foreign / partially labelled / owned objects before and during install, upgrade and install --replace with and without take-ownership; refusal must come before any write and leave cluster and history byte-identical.",
    note="Simulated world as C01; charts without crds/; one genuine defect listed as known finding."),
+ "C08": dict(cat="exploration", tech="rapid grammar-based generation of template file sets with unique document ids against an independent classifier and the documented kind orders; for the creation barrier, real installs over the simulator with randomly held requests and arrival/completion stamps",
+   text="Generated multi-document template sets (hooks with known/unknown events, blank and comment documents, CRLF, odd separators, NOTES and partials) must be partitioned exactly once into manifest or hook list and ordered by the documented install/uninstall kind order; real installs/uninstalls with delayed requests must never start a later kind before an earlier kind completed.",
+   note="Barrier part controls the schedule only by delaying requests in the simulator; a quiescence window can hide but never raise a violation."),
  "C10": dict(cat="exploration", tech="rapid state-machine (model-based) testing against a reference map, three backends in lock-step",
    text="Generated call sequences run in lock-step on the memory, Secret and ConfigMap backends and a reference map; every result and a periodic full scan are compared.",
    note="Secret/ConfigMap drivers run over client-go's fake clientset; SQL driver not covered."),
